@@ -534,6 +534,12 @@ def impl_decl(draw, s: M.Schema, cfg: FullCfg, taken: set) -> Optional[M.Impl]:
     sbs = draw(signal_blocks(s, target, max_blocks=2))
     if not fields and not sbs:
         fields = [("id", draw(st.integers(0, 2047)))]
+    if sbs and draw(st.integers(0, 2)) == 0:
+        # an extension field keyed like one of the binding's signal blocks ("id: 291" next to "signal id {...}"):
+        # two different things that happen to share a name
+        key = draw(st.sampled_from([sb.name for sb in sbs]))
+        if all(k != key for k, _v in fields) and key not in KEYWORDS:
+            fields = list(fields) + [(key, draw(st.integers(0, 2047)))]
     order = interleave(draw, len(fields), len(sbs))
     return M.Impl(proto, target, nm, fields, sbs, order, explicit_as=draw(st.booleans()))
 
